@@ -16,17 +16,17 @@ CHECKS = {
          "Every execution of the real server on enumerated message scripts is compared at each quiescent point with an exact per-message response prediction (unique ids/tags/tokens): nothing early, nothing lost or duplicated, array flag and order, handlers exactly once.", BUBBLE),
  "C02": ("exploration", "runtime monitor: independent JSON-RPC member classifier vs live server output + handler-invocation log + liveness probe, product of field variants and seeded byte mutations",
          "Each input record is sent to a live server; emitted bytes, handler invocation counts and a follow-up probe are judged by a reference classifier written from the spec/README; the variant product is exhaustive in the thorough tier, sampled in quick.", INPUT),
- "C03": ("exploration", "runtime monitor: handler enter/exit event log checked at synctest quiescent points over enumerated scripts x release orders x delay-bounded schedules, race detector",
+ "C03": ("exploration", "runtime monitor: handler enter/exit event log checked at synctest quiescent points over enumerated scripts x release orders x delay-bounded schedules, race detector; built-in call over a slow assigner under a mutex-deadlock detector",
          "Ordering oracle (notification exit before later enter) and work-conservation oracle at every quiescent point of every execution; each hook visit parked in turn.", BUBBLE),
  "C04": ("exploration", "runtime monitor: raw scripted peer with unique reply tokens vs values returned by real Client.Call/Batch, enumerated reply permutations/partitions/extras, pending-set snapshot, delay-bounded schedules; rendezvous transport with a single-threaded peer under a mutex-deadlock detector (stop-the-world stack snapshots)",
          "All permutations and groupings of replies (plus duplicates, malformed, unknown ids, server requests) for small operation sets; each slot must return the first token sent for its id.", BUBBLE),
  "C05": ("fault_enumeration", "runtime monitor: state-set reference model filtered by observed API returns / hooks / transmissions after every event; k-th Send and k-th Recv failure enumerated for every history; rendezvous transport with a single-threaded peer under a mutex-deadlock detector",
          "Histories of replies, cancellations, deadlines, Close, EOF, transport failures and races are executed against the real client with a failure injected at every channel operation; exactly-once return, OnCancel/OnStop accounting and leak-freedom are decided at quiescent points.", BUBBLE),
- "C06": ("exploration", "runtime monitor: slot counter at the library's own invoke hook sites, checked online and at quiescent points; enumerated batch shapes, release orders, CancelRequest of waiters; back-pressure (held Send) with a mutex-deadlock detector; limits above NumCPU; deadlines with causes in virtual time",
+ "C06": ("exploration", "runtime monitor: slot counter at the library's own invoke hook sites, checked online and at quiescent points; enumerated batch shapes, release orders, CancelRequest of waiters, cancellation racing a release; back-pressure (held Send) with a mutex-deadlock detector; limits above NumCPU; deadlines with causes in virtual time",
          "The number of invocations holding a semaphore slot is bounded online and equals min(limit, runnable) at every quiescent point; cancelled waiters never run.", BUBBLE),
  "C07": ("exploration", "runtime monitor: sequential reservation reference model (state set) vs reserved-id snapshot, replies and handler contexts after every operation of enumerated histories; reply held inside Send / bookkeeping parked at hook points for the two edges of the reservation window",
          "All short histories of calls with reused ids, batches, CancelRequest, gate releases and parked dispatch; the observed reserved-id set, replies and handler contexts must be admissible under the model at every step.", BUBBLE),
- "C08": ("fault_enumeration", "runtime monitor + crash attribution: scenarios x stop cause injected at every Recv/Send x channel flavour x post-stop traffic x restart (second session ended by Stop), channel handed over as a non-comparable value, judged at quiescent points; worker death = violation",
+ "C08": ("fault_enumeration", "runtime monitor + crash attribution: scenarios x stop cause injected at every Recv/Send x channel flavour x post-stop traffic x restart (second session ended by Stop) x channels whose Close fails, channel handed over as a non-comparable value, judged at quiescent points; worker death = violation",
          "A failure is injected at every channel operation of each scenario (plus Stop and peer close) and the shutdown contract (status, handler completion, context cancellation, notification delivery, no leak, restart) is checked.", BUBBLE),
  "C09": ("exploration", "runtime monitor: push reference model vs Callback returns, emitted records and outstanding-callback snapshot after every operation of enumerated histories (virtual time for deadlines)",
          "All short histories of callbacks, replies (late, duplicate, unknown), cancellations, deadlines, colliding client calls and Stop; emitted records must be exactly those the pushes and calls account for.", BUBBLE),
